@@ -437,4 +437,40 @@ def r4_6(ctx):
     borrow(ctx, r6_4, "R6.4", "R4.6", " [a tag opened later takes precedence: span styles are combined with Style.__add__, which must be right-biased including for attributes a later tag switches off]")
 
 
-RULES = [r4_1, r4_2, r4_3, r4_4, r4_5, r4_6]
+def r4_7(ctx):
+    from .common import return_forms
+    ctx.rule("R4.7", "reserved span slots are stable and escape() only escapes: (a) in render() the span list is only appended to and stored into in place - never shrunk or reordered (the open-tag stack holds indices into it, so removing a slot makes every later index point at the wrong span); (b) every path of escape() returns exactly the result of <regex>.sub(callback, markup) - nothing is appended to or cut from the text outside the tag matches")
+    m = ctx.repo.mod("markup")
+    render = m.fn("render")
+    aliases = alias_map(render.node)
+    bad = []
+    for x in walk_local(render.node):
+        if isinstance(x, ast.Delete) and any(isinstance(t, ast.Subscript) and norm(t.value) == "spans" for t in x.targets):
+            bad.append(x)
+        if isinstance(x, ast.Call) and isinstance(x.func, ast.Attribute) and norm(expand_alias(x.func.value, aliases)) == "spans" and x.func.attr in ("pop", "remove", "clear", "insert", "sort", "reverse"):
+            bad.append(x)
+        if isinstance(x, ast.Assign) and any(isinstance(t, ast.Subscript) and isinstance(t.slice, ast.Slice) and norm(t.value) == "spans" for t in x.targets):
+            bad.append(x)
+    for b in bad:
+        ctx.violation(render.fq, short(b), f"{m.relpath}:{b.lineno}", f"`{short(b)}` removes or moves an entry of the reserved span list while the open-tag stack still holds indices into it: tags opened later now close the wrong span (lost or misplaced styles, or IndexError)")
+    ctx.check(not bad, render.fq, "spans only grow", render.where, "the span list is only appended to / stored into in place", "the span list is shrunk or reordered in render()")
+    esc = m.fn("escape")
+    _m, _tags, _fn, (cb, rx, sub_call) = _regexes(ctx)
+    forms = return_forms(esc, depth=0)
+    ok = bool(forms)
+    detail = ""
+    from ..astutil import inline as _inl, single_defs as _sdf
+    sd = _sdf(esc.node)
+    sub_txt = norm(sub_call)
+    # the parameter may be re-bound to the substitution result before being returned
+    for facts, v in forms:
+        txt = norm(_inl(v, sd))
+        if txt != sub_txt:
+            # `markup = _escape(..., markup); return markup` - resolved by return_forms already; anything else is extra processing
+            ok = False
+            detail = txt
+    ctx.check(ok, esc.fq, detail[:160] or sub_txt[:160], esc.where, "escape() returns the substitution result unchanged on every path",
+              f"escape() returns `{detail[:120]}` on some path, not just the result of the tag-escaping substitution: text without tags is changed too (e.g. a backslash is appended), so render(escape(s)) != s")
+
+
+RULES = [r4_1, r4_2, r4_3, r4_4, r4_5, r4_6, r4_7]
